@@ -34,14 +34,23 @@ for sid in sys.argv[1:]:
         res["demo_tail_with_patch"] = r1.stdout[-600:]
         base = meta.get("baseline_tests") or ["cargo test -p rustic_core --offline --lib", "cargo test -p rustic_core --offline --test integration"]
         ok = True; outs = []
+        known = ("test_check::case_3", "test_check::case_4", "test_error_debug", "test_error_display")
         for b in base:
-            rb = sh("export CARGO_TARGET_DIR=%s; %s 2>&1 | grep -E '^test result|FAILED|failed' | head -20" % (TGT, b), cwd=WT)
-            outs.append(rb.stdout.strip())
-            # the 4 always-failing baseline tests (errors::*, check::case_3/4) are not in these targets' pass set
-            fails = [l for l in rb.stdout.splitlines() if "FAILED" in l or " failed" in l and "0 failed" not in l]
-            known = ("test_check::case_3", "test_check::case_4")
-            fails = [l for l in fails if not any(k in l for k in known) and not l.startswith("test result")]
-            ok = ok and not fails
+            rb = sh("export CARGO_TARGET_DIR=%s; %s 2>&1" % (TGT, b), cwd=WT)
+            fails = re.findall(r"^test (\S+) \.\.\. FAILED$", rb.stdout, re.M)
+            fails = [f for f in fails if not any(k in f for k in known)]
+            still = []
+            for f in fails:       # load flakiness ("index still in use"): rerun singly
+                passed = False
+                for _ in range(3):
+                    r1x = sh("export CARGO_TARGET_DIR=%s; %s %s -- --exact --test-threads 1 2>&1" % (TGT, b, f.split("::")[-1] if False else f), cwd=WT)
+                    if re.search(r"test result: ok\. 1 passed", r1x.stdout):
+                        passed = True; break
+                if not passed: still.append(f)
+            summ = re.findall(r"^test result:.*$", rb.stdout, re.M)
+            outs.append({"cmd": b, "summary": summ, "failed_first_run": fails, "failed_after_single_reruns": still,
+                         "compiled": "error: could not compile" not in rb.stdout})
+            ok = ok and not still and "error: could not compile" not in rb.stdout and bool(summ)
         res["existing_tests_pass_with_patch"] = ok
         res["baseline_output"] = outs
         res["wall_s"] = round(time.time() - t)
